@@ -28,7 +28,8 @@ REQUIRED_THEOREMS = ["Cv.C14.predict_spec", "Cv.C14.vandermonde_entry", "Cv.C14.
                      "Cv.C14.fit_orthogonal", "Cv.C14.fit_minimal", "Cv.C14.fit_reproduces"]
 RULE = ("degrees 0..6 x four abscissa layouts in [-2,2] (uniform, clustered, Chebyshev, integer/dyadic grid) x n from "
         "deg+1 to 2000 x responses = polynomial + noise at relative scales 0..1e6, exact-integer data, rank-deficient and "
-        "mismatched inputs; predict on coefficient lists of length 0..9 incl. special values; non-trivial = distinct "
+        "mismatched inputs; replicated small-integer designs (levels in -3..3 with multiplicities, found by brute force) whose "
+        "X^T X has an exactly-zero entry with non-zero Cholesky fill-in; predict on coefficient lists of length 0..9 incl. special values; non-trivial = distinct "
         "(op, layout, degree, size class, noise class)")
 EXHAUSTIVE = {"quick": False, "thorough": False}
 NOT_PROVED = [
@@ -110,6 +111,75 @@ def gen_fit(rng, tier, cover, big):
     return "fit %s %d %s %s" % (tag, d, vec(x), vec(y))
 
 
+
+# ---- replicated small-integer designs with an exactly-zero entry of X^T X and non-zero Cholesky fill-in
+_ZS_POOL = {}
+
+
+def _fillin_zero_entries(levels, mult, d):
+    """exact LDL^T of the Hankel matrix of power sums; -> True iff some entry a[i][j] (i > j >= 1) is exactly 0 while
+    the fill-in sum_k<j L[i][k] L[j][k] of the Cholesky factor is not (the entry of L is then non-zero)."""
+    p = d + 1
+    sm = [sum(m * (v ** k) for v, m in zip(levels, mult)) for k in range(2 * p - 1)]
+    A = [[Fraction(sm[i + j]) for j in range(p)] for i in range(p)]
+    L = [[Fraction(0)] * p for _ in range(p)]
+    D = [Fraction(0)] * p
+    hit = False
+    for j in range(p):
+        D[j] = A[j][j] - sum(L[j][k] * L[j][k] * D[k] for k in range(j))
+        if D[j] <= 0:
+            return False
+        L[j][j] = Fraction(1)
+        for i in range(j + 1, p):
+            fill = sum(L[i][k] * L[j][k] * D[k] for k in range(j))
+            L[i][j] = (A[i][j] - fill) / D[j]
+            if j >= 1 and A[i][j] == 0 and fill != 0:
+                hit = True
+    return hit
+
+
+def zs_pool(d):
+    """brute-force enumeration (deterministic, cached): level subsets of {-3..3} with multiplicities."""
+    if d in _ZS_POOL:
+        return _ZS_POOL[d]
+    import itertools
+    pool = []
+    for size, mmax in ((d + 1, {2: 10, 3: 5, 4: 3}.get(d, 2)), (d + 2, {2: 5, 3: 3, 4: 2}.get(d, 2))):
+        if size > 7:
+            continue
+        for levels in itertools.combinations(range(-3, 4), size):
+            for mult in itertools.product(range(1, mmax + 1), repeat=size):
+                odd = [sum(m * v ** k for v, m in zip(levels, mult)) for k in range(1, 2 * d, 2)]
+                if 0 not in odd[1:] or all(o == 0 for o in odd):
+                    continue       # needs an exactly-zero odd power sum of order >= 3, but not a symmetric design
+                if _fillin_zero_entries(levels, mult, d):
+                    pool.append((levels, mult))
+    _ZS_POOL[d] = pool
+    return pool
+
+
+def gen_zerosum(rng, cover):
+    d = rng.choice([2, 2, 3, 3, 4])
+    pool = zs_pool(d)
+    levels, mult = rng.choice(pool)
+    x = []
+    for v, m in zip(levels, mult):
+        x += [float(v)] * m
+    rng.shuffle(x)
+    if rng.chance(0.5):
+        c0 = [float(rng.randint(-9, 9)) for _ in range(d + 1)]
+        y = [float(sum(Fraction(c) * Fraction(v) ** k for k, c in enumerate(c0))) for v in x]
+        noise = "exact"
+    else:
+        c0 = [rng.normal() * 10.0 ** rng.randint(-1, 1) for _ in range(d + 1)]
+        sc = rng.choice([1e-3, 1.0, 1e2]) * (max(abs(a) for a in c0) or 1.0)
+        y = [horner_f(c0, v) + sc * rng.normal() for v in x]
+        noise = "noisy"
+    cover["fit:zerosum"] = cover.get("fit:zerosum", 0) + 1
+    cover["zerosum:pool:d%d" % d] = len(pool)
+    return "fit zerosum:d%d:%s %d %s %s" % (d, noise, d, vec(x), vec(y))
+
+
 def gen_predict(rng, cover):
     k = rng.randint(0, 9)
     if rng.chance(0.3):
@@ -161,6 +231,10 @@ def corpus():
     L.append("fit corpus:cubic 3 %s %s" % (vec(xi), vec([1.0 - 2.0 * v + 3.0 * v ** 3 for v in xi])))
     L.append("vander corpus:v 4 %s" % vec([2.0, -1.5, 0.0]))
     L.append("fit corpus:mismatch 1 %s %s" % (vec([1.0, 2.0, 3.0]), vec([1.0, 2.0])))
+    # replicated design with sum x^3 = 0 exactly but sum x = 6: X^T X has a zero entry whose Cholesky fill-in is 72/11
+    xz = [-2.0] + [0.0] * 2 + [1.0] * 8
+    L.append("fit corpus:zerosum:d2:exact 2 %s %s" % (vec(xz), vec([1.0 + 2.0 * v + 3.0 * v * v for v in xz])))
+    L.append("fit corpus:zerosum:d2:noisy 2 %s %s" % (vec(xz), vec([1.0 + 2.0 * v + 3.0 * v * v + 0.25 * ((7 * i) % 5 - 2) for i, v in enumerate(xz)])))
     return L
 
 
@@ -168,10 +242,13 @@ def gen(rng, tier):
     cover = {}
     lines = []
     nsmall, nbig, npred, nbad, nv = (500, 24, 250, 60, 40) if tier == "quick" else (15000, 700, 8000, 1200, 900)
+    nzs = 60 if tier == "quick" else 1500
     for _ in range(nsmall):
         lines.append(gen_fit(rng, tier, cover, False))
     for _ in range(nbig):
         lines.append(gen_fit(rng, tier, cover, True))
+    for _ in range(nzs):
+        lines.append(gen_zerosum(rng, cover))
     for _ in range(npred):
         lines.append(gen_predict(rng, cover))
     for _ in range(nbad):
